@@ -209,6 +209,14 @@ func checkC06(c C06Case) h.Outcome {
 	}
 	if wantIT := c.Window == "not-yet-valid" || c.Window == "conditions-expired"; w.InvalidTime != wantIT {
 		o.Violation = h.V("invalidtime-mismatch", "InvalidTime=%v for window %q", w.InvalidTime, c.Window)
+		return o
+	}
+	// the exported evaluator, called directly on the returned first assertion, says the same
+	if len(info.Assertions) > 0 {
+		w2, err := c.SP.Build().VerifyAssertionConditions(&info.Assertions[0])
+		if err != nil || w2 == nil || !reflect.DeepEqual(*w2, *w) {
+			o.Violation = h.V("direct-evaluation-differs", "VerifyAssertionConditions on the returned first assertion gives %+v (err %v), RetrieveAssertionInfo reported %+v", w2, err, w)
+		}
 	}
 	return o
 }
